@@ -19,7 +19,7 @@ class Calls:
             for ev in res.get(sid, []):
                 if ev.get("ev") == "call-end" and "outcome" in ev:
                     self.rec.append((family, sid, {"entry": ev.get("entry") or ev.get("call") or entry_default or family, "len": int(ev.get("len", 0)),
-                                                   "outcome": ev["outcome"], "alloc": int(ev.get("alloc", 0)), "ms": int(ev.get("ms", 0)), "panic": ev.get("panic", "")}))
+                                                   "outcome": ev["outcome"], "alloc": int(ev.get("alloc", 0)), "ms": int(ev.get("ms", 0)), "read": int(ev.get("read", 0)), "retained": int(ev.get("retained", 0)), "panic": ev.get("panic", "")}))
             if sid in deaths:
                 d = deaths[sid]
                 infl = d.get("inflight") or {}
@@ -27,7 +27,7 @@ class Calls:
                 if kind == "exit" and d.get("code") == 97:
                     kind = "timeout"
                 self.rec.append((family, sid, {"entry": infl.get("call") or infl.get("entry") or entry_default or family, "len": int(infl.get("len", 0)), "outcome": kind,
-                                               "alloc": 0, "ms": 0, "panic": (d.get("stderr") or "").strip()[-160:]}))
+                                               "alloc": 0, "ms": 0, "read": 0, "retained": 0, "panic": (d.get("stderr") or "").strip()[-160:]}))
 
 
 def site_of(text):
@@ -51,8 +51,8 @@ def judge(c, calls, scen_by_id, name="outcome-contract"):
     for k in rejected:
         fam, sid, rec = calls.rec[k - 1]
         if rec["outcome"] in ("value", "error"):
-            what = "allocated %d bytes / took %d ms for %d input bytes" % (rec["alloc"], rec["ms"], rec["len"])
-            cls = "alloc" if rec["alloc"] > 33554432 + 64 * rec["len"] else "time"
+            what = "allocated %d bytes / took %d ms / read %d bytes / kept %d bytes for %d input bytes" % (rec["alloc"], rec["ms"], rec.get("read", 0), rec.get("retained", 0), rec["len"])
+            cls = "alloc" if rec["alloc"] > 33554432 + 64 * rec["len"] else ("work" if rec.get("read", 0) > 65536 + 8 * rec["len"] else ("retained" if rec.get("retained", 0) > 2097152 else "time"))
             key = "%s:%s" % (rec["entry"], cls)
         else:
             what = "%s: %s" % (rec["outcome"], rec.get("panic"))
@@ -62,7 +62,7 @@ def judge(c, calls, scen_by_id, name="outcome-contract"):
             def still_bad(evs, entry=rec["entry"]):
                 c2 = Calls()
                 c2.add_run(fam, [{"sc": sid}], {sid: evs}, {})
-                bad = [x for _, _, x in c2.rec if x["outcome"] not in ("value", "error") or x["alloc"] > 33554432 + 64 * x["len"] or x["ms"] > 3000 + 20 * (x["len"] // 1024)]
+                bad = [x for _, _, x in c2.rec if x["outcome"] not in ("value", "error") or x["alloc"] > 33554432 + 64 * x["len"] or x["ms"] > 3000 + 20 * (x["len"] // 1024) or x.get("read", 0) > 65536 + 8 * x["len"] or x.get("retained", 0) > 2097152]
                 return bool(bad)
             c.reproduce(fam, sid, still_bad, env=env_of())
         c.report(key, "%s on %s" % (what, rec["entry"]), dict({"family": fam, "scenario": scen_by_id.get((fam, sid)), "call": rec}, **(c.rp(fam, scen_by_id[(fam, sid)], judge="outcome") if scen_by_id.get((fam, sid)) else {})))
